@@ -47,6 +47,7 @@ type fault struct {
 	off2  int  // pair: second offset
 	count int  // burstff: length
 	must  bool // never sub-sampled
+	setv  map[int]byte // setbytes: replacement bytes by absolute offset
 }
 
 func (f fault) apply(g2e, e2g *fragQueue) {
@@ -73,6 +74,8 @@ func (f fault) apply(g2e, e2g *fragQueue) {
 		for k := 0; k < 16; k++ {
 			q.set[f.off+k] = f.mask
 		}
+	case "setbytes":
+		q.set = f.setv
 	case "dup16":
 		// the label at off2 (earlier in the stream) copied over the label at off
 		q.dup = map[int]int{}
@@ -116,10 +119,10 @@ func runC16(c *Ctx) error {
 		crash    string
 		basefail string
 	}
-	events := make([][]c16Event, ncirc+2)
-	errs := make([]error, ncirc+2)
+	events := make([][]c16Event, ncirc+3)
+	errs := make([]error, ncirc+3)
 	var wg sync.WaitGroup
-	for ci := 0; ci <= ncirc+1; ci++ {
+	for ci := 0; ci <= ncirc+2; ci++ {
 		wg.Add(1)
 		go func(ci int) {
 			defer wg.Done()
@@ -184,7 +187,7 @@ func runC16(c *Ctx) error {
 		}(ci)
 	}
 	wg.Wait()
-	for ci := 0; ci <= ncirc+1; ci++ {
+	for ci := 0; ci <= ncirc+2; ci++ {
 		if errs[ci] != nil {
 			return errs[ci]
 		}
@@ -275,7 +278,7 @@ func c16Child(c *Ctx) error {
 		sessSeed := r.U64()
 		run := func(f *fault) (*sessionResult, *blockLog) {
 			sr := NewRNG(sessSeed)
-			grand := &blockLog{r: sr.Fork()}
+			grand := &blockLog{r: sr.Fork(), skipKey: true}
 			var tw func(g2e, e2g *fragQueue)
 			if f != nil {
 				tw = f.apply
@@ -458,6 +461,9 @@ func c16RunStream(seed uint64, av, bv int, f *fault) (gRes []*big.Int, gErr erro
 	return c16RunStreamProg(seed, c16StreamProgram, []string{fmt.Sprint(av)}, []string{fmt.Sprint(bv)}, f)
 }
 
+// c16LastG2E: the garbler->evaluator byte stream (as written) of the last c16RunStreamProg call.
+var c16LastG2E []byte
+
 func c16RunStreamProg(seed uint64, src string, gIn, eIn []string, f *fault) (gRes []*big.Int, gErr error, stalled bool, lg, le int) {
 	sr := NewRNG(seed)
 	ga, ea, g2e, e2g := newDuplexPair(sr, 0)
@@ -535,6 +541,7 @@ func c16RunStreamProg(seed uint64, src string, gIn, eIn []string, f *fault) (gRe
 	}
 	g2e.mu.Lock()
 	lg = len(g2e.log)
+	c16LastG2E = append(c16LastG2E[:0], g2e.log...)
 	if dumpHdr {
 		n := lg
 		if n > 200 {
@@ -721,6 +728,93 @@ func c16StreamChild(c *Ctx, w *bufio.Writer, startAt int, part int) error {
 			}
 		}
 	}
+	if part == 2 {
+		if err := c16WideInputs(c, w, startAt, seed); err != nil {
+			return err
+		}
+	}
 	fmt.Fprintln(w, "DONE")
+	return nil
+}
+
+// c16WideInputs: a streamed program with more than 256 input wires; faults that turn a
+// transmitted 16-bit big-endian quantity (wire numbers in gate records and in the return
+// message, counts) into its successor / predecessor, carries included (0x00ff <-> 0x0100): the
+// evaluator then uses or returns the label of the NEIGHBOURING wire, which the garbler may
+// accept only if it is a label of the wire it expected AND encodes that wire's value.
+func c16WideInputs(c *Ctx, w *bufio.Writer, startAt int, seed uint64) error {
+	src := "package main\nfunc main(a, b uint256) uint256 {\n\treturn a ^ b\n}\n"
+	one := big.NewInt(1)
+	av := new(big.Int).Lsh(one, 255)                              // wire 255 = 1
+	av.Or(av, big.NewInt(0x5a5a))                                 //
+	bv := new(big.Int).Sub(new(big.Int).Lsh(one, 200), big.NewInt(2)) // wire 256 = 0, 257.. = 1
+	want := []*big.Int{new(big.Int).Xor(av, bv)}
+	gIn, eIn := []string{av.String()}, []string{bv.String()}
+	res, err, st, lg, _ := c16RunStreamProg(seed, src, gIn, eIn, nil)
+	if err != nil || st || bigsString(res) != bigsString(want) {
+		fmt.Fprintf(w, "BASEFAIL stream-wide-inputs baseline: %v %v %s want %s\n", err, st, bigsString(res), bigsString(want))
+		return nil
+	}
+	base := append([]byte(nil), c16LastG2E...)
+	if len(base) != lg {
+		fmt.Fprintf(w, "BASEFAIL stream-wide-inputs baseline: log length %d vs %d\n", len(base), lg)
+		return nil
+	}
+	type wf struct {
+		off   int
+		delta int
+	}
+	var wfs []wf
+	// quick: the last 3600 bytes of the stream (the streamed gate records and the return
+	// message): every 16-bit value within 2 of a power of two >= 64 (where a carry happens)
+	// and every 16th other offset; thorough: the whole stream, every offset
+	step, from := 16, len(base)-3600
+	if c.Thorough() {
+		step, from = 1, 0
+	}
+	if from < 0 {
+		from = 0
+	}
+	for off := from; off+1 < len(base); off++ {
+		v := int(base[off])<<8 | int(base[off+1])
+		boundary := false
+		for k := 6; k < 16; k++ {
+			if v >= 1<<uint(k)-2 && v <= 1<<uint(k)+1 {
+				boundary = true
+			}
+		}
+		if boundary || off%step == 0 {
+			wfs = append(wfs, wf{off, 1}, wf{off, -1})
+		}
+	}
+	fi := 1 << 20
+	for _, x := range wfs {
+		fi++
+		if fi < startAt {
+			continue
+		}
+		v := (int(base[x.off])<<8 | int(base[x.off+1])) + x.delta
+		f := fault{dir: "g2e", off: x.off, kind: "setbytes", setv: map[int]byte{x.off: byte(v >> 8), x.off + 1: byte(v)}}
+		fmt.Fprintf(w, "BEGIN %d stream-wide-inputs-g2e:%d:%+d\n", fi, x.off, x.delta)
+		w.Flush()
+		rec := c16Rec{Fi: fi, Dir: "stream-wide-inputs-g2e", Kind: "word16-successor", Off: x.off, Circuit: "streaming: " + src}
+		gres, gerr, st, _, _ := c16RunStreamProg(seed, src, gIn, eIn, &f)
+		switch {
+		case gerr == nil && gres != nil && !st:
+			rec.Outcome = "result"
+			if bigsString(gres) != bigsString(want) {
+				rec.Wrong = &c16Replay{Seed: c.Seed, Circuit: "streaming: " + src, OT: "co", X: gIn[0], Y: eIn[0],
+					Dir: "g2e", Offset: x.off, Kind: fmt.Sprintf("16-bit big-endian word at offset %d replaced by its value %+d (%#04x -> %#04x)", x.off, x.delta, v-x.delta, v&0xffff),
+					Mask: x.delta, Got: bigsString(gres), Want: bigsString(want)}
+			}
+		case st && gerr == nil:
+			rec.Outcome = "stalled"
+		default:
+			rec.Outcome = "error"
+		}
+		b, _ := json.Marshal(rec)
+		fmt.Fprintf(w, "END %s\n", b)
+		w.Flush()
+	}
 	return nil
 }
